@@ -16,6 +16,7 @@ func init() {
 			"R3 Stream/StreamDeltas create the connection / start receiving only under IsServerReady()==true, and authenticate first",
 			"R4 deltaWatchedResources folds Subscribe, Unsubscribe and InitialResourceVersions into the returned set",
 			"R6 once a type was marked AlwaysRespond (its parent type was re-requested on reconnect) the next request for it is answered in full: every negative or narrowed answer lies under the flag==false edge",
+			"R7 for every type whose recorded names are left to its generator (requiresResourceNamesModification) the generator writes WatchedResource.ResourceNames, so the names a reconnecting client retained are available when removals are computed",
 			"R5 on a full (non-partial) push every requested EDS name and every requested sidecar/waypoint RDS name yields a resource (every skip is under partialPush)",
 		},
 		NotDecided: "state equality after every cut point; ztunnel initial_resource_versions diffing; removal of retained-but-deleted resources (value-level)",
@@ -26,6 +27,7 @@ func init() {
 			{"C05-R4", "retained names folded in", c05r4},
 			{"C05-R5", "every requested name answered on a full push", c05r5},
 			{"C05-R6", "a forced (warming) response is never lost or narrowed", func(c *Ctx) { alwaysRespondForces(c); c.Floor(4) }},
+			{"C05-R7", "names a reconnecting client retained are recorded for generator-managed types (shared with C03-R5)", c03r5},
 		},
 	})
 }
@@ -321,7 +323,17 @@ func c05r5(c *Ctx) {
 		if l.Over == nil {
 			continue
 		}
+		// the requested names: the set itself, or a list made from it (sets.SortedList(w.ResourceNames))
 		fv := fieldOfLoad(l.Over)
+		if fv == nil {
+			if call, ok := l.Over.(*ssa.Call); ok {
+				for _, a := range call.Call.Args {
+					if f2 := fieldOfLoad(a); f2 != nil && f2.Name() == "ResourceNames" {
+						fv = f2
+					}
+				}
+			}
+		}
 		if fv == nil || fv.Name() != "ResourceNames" {
 			continue
 		}
